@@ -71,6 +71,16 @@ func init() {
 						{Op: "upd", H: "h", M: "g", V: 4}, {Op: "upd", H: "h", M: "g2", V: 2}}},
 					{Name: "p1", Ops: []Op{{Op: "pass"}, {Op: "pass"}}},
 				}}})
+			// several sub-scopes in one registry shard, one of them closed: the pass that retires the closed one still
+			// visits every other scope (gauges updated before it are fresh after it)
+			sib := []Op{}
+			for _, n := range []string{"a", "b", "c", "d", "e"} {
+				sib = append(sib, Op{Op: "sub", H: n, Name: n}, Op{Op: "upd", H: n, M: "g", V: 1})
+			}
+			sib = append(sib, Op{Op: "close", H: "c"}, Op{Op: "upd", H: "a", M: "g", V: 2}, Op{Op: "upd", H: "e", M: "g", V: 3}, Op{Op: "pass"})
+			out = append(out, scenarioSet{mode: "random", maxExec: 60, sc: &Scenario{
+				Name: "c02-siblings-" + rep, Reporter: rep, Gauge: "plain", Shards: 1, Points: []string{"op_pass"},
+				Threads: []ThreadSpec{{Name: "u1", Ops: sib}}}})
 		}
 		return out
 	}
